@@ -105,7 +105,7 @@ ADDED = {
  "C05": ("scan-position rule, result-provenance rule for the token clean-up", " The scan position moves only by the size of the decoded rune (no byte is stepped over without being decoded and dispatched); the token clean-up returns text it built rune by rune, never its raw argument unless that was shown to consist of letters only. Text resolved from HTML character references is lower-cased as well; all hyphens and dashes U+2010..U+2015 and the minus sign map to '-'; on every iteration path that appends the rune to an open word unicode.IsSpace(r) returned false."),
  "C06": ("dominance rule for the notice patterns, key-provenance rule for the spelling table", " The notice patterns are consulted on every path that reaches the token loop; the spelling table is looked up with the cleaned word; integer tokenizer state survives buffer refills too. A word found in the list-marker table is a marker whatever its closing character; after the line buffer is emptied in the middle of a line the following words carry a non-zero position; the scheme rewrite runs to a fixed point and covers the cleaned word; every retained candidate (Copyright matches included) is returned."),
  "C08": ("scan-position rule", " The scan position moves only by the size of the decoded rune; all tokenizer state (flags, line, held line breaks) is carried across buffer refills. The reader is consumed only through a fill loop whose shape is checked (fills the window or stops at the reader's own error, which it returns unchanged); io.EOF is the only end-of-input sentinel; the decoder's slice ends at the valid bytes."),
- "C10": ("division-guard facts, loop-carried string accumulation rule", " Every integer division by a run-time value is dominated by a non-zero test; no loop extends a string by concatenation (quadratic time on a very long line); the run detector gets the clamped q."),
+ "C10": ("division-guard facts, loop-carried string accumulation rule", " Every integer division by a run-time value is dominated by a non-zero test; no loop extends a string by concatenation (quadratic time on a very long line); the run detector gets the clamped q. The methods that build a lazily built part of a document (frequency table, search set) assign it on every path, and match builds the input's search set unconditionally or under exactly the condition under which the loop that reads it runs."),
  "C11": ("case-folding rule for word-table lookups, result-not-trimmed rule, must-derive-from rule for the interned word", " Lower-case word tables consulted by the token clean-up are consulted with a case-folded key or only when normalising (Normalize keeps the capital of a word's first letter); the result of Normalize is not trimmed at its beginning; the interned word derives from html.UnescapeString on every path; the first token is written only after the end-of-line test. Normalize and match tokenise the unmodified input; a cleaned number ends neither in a dot nor in a hyphen; Normalize writes one line break per line advanced; whether a line is a notice is also decided on its cleaned form."),
  "C12": ("walk-callback path rules, single-writer rule for the corpus map", " The walk callback tests the walk error before using the FileInfo and returns SkipDir only for directories; the corpus map is assigned only by the constructor. Only entries that are not directories are collected; AddContent receives the whole contents ReadFile returned; between the loop over the files and AddContent only the segment-count and error tests decide."),
  "C13": ("def-use rule for the raw text, comparator strictness by finite relation enumeration, occurrence-shortcut path rule", " A function that normalises its text parameter uses the raw parameter for nothing else; result lists are sorted by a strict order on exact comparisons with Confidence first; the exact-occurrence shortcut can assign first and last token on one path. An exact occurrence is reported with the byte range the regular expression delimits (never by way of token indices); duplicate removal compares offsets strictly with the exclusive end of a range; New keeps a private copy of the normaliser list (E1 provenance)."),
